@@ -46,4 +46,10 @@ MUTANTS = [
  {"id": "opspan-fields-swapped-at-push", "kind": "break", "edits": [{"patch": "/verif/benign/h3-dewey-2/patch.diff"}, ("src/dewey.rs", "deweyops.push(OpSpan { start, version, op });", "deweyops.push(OpSpan { start: version, version: start, op });")], "expect": ["D1-"]},
  {"id": "opspan-upper-bound-from-lower-record", "kind": "break", "edits": [{"patch": "/verif/benign/h3-dewey-2/patch.diff"}, ("src/dewey.rs", "let p = &pattern[upper.version..pattern.len()];", "let p = &pattern[lower.version..pattern.len()];")], "expect": ["D1-SLICES"]},
 
+
+ # the operator scan with has_eq = pattern[index + 1..].starts_with('=') and version_start = index + 1 + usize::from(has_eq)
+ {"id": "has-eq-form-benign", "kind": "benign", "edits": [{"patch": "/verif/benign/h7-dewey-2/patch.diff"}]},
+ {"id": "has-eq-form-start-ignores-eq", "kind": "break", "edits": [{"patch": "/verif/benign/h7-dewey-2/patch.diff"}, ("src/dewey.rs", "let version_start = index + 1 + usize::from(has_eq);", "let version_start = index + 1;")], "expect": ["D1-SCAN"]},
+ {"id": "has-eq-form-le-is-lt", "kind": "break", "edits": [{"patch": "/verif/benign/h7-dewey-2/patch.diff"}, ("src/dewey.rs", '                ("<", true) => DeweyOp::LE,', '                ("<", true) => DeweyOp::LT,')], "expect": ["D1-SCAN"]},
+ {"id": "has-eq-form-tests-two-ahead", "kind": "break", "edits": [{"patch": "/verif/benign/h7-dewey-2/patch.diff"}, ("src/dewey.rs", "let has_eq = pattern[index + 1..].starts_with('=');", "let has_eq = pattern[index..].contains('=');")], "expect": ["D1-SCAN"]},
 ]
